@@ -375,8 +375,9 @@ def check_path_scheme(ck):
     strips = []
     for fn in [ls.fi] + list(ls.fi.nested.values()):
         for n in A.walk_body(fn.node):
-            if isinstance(n, ast.If) and isinstance(n.test, ast.Call) and A.call_attr(n.test) == "endswith" and n.test.args:
-                lit = A.const_str(n.test.args[0])
+            ew = [a for a in A.conj_atoms(n.test) if isinstance(a, ast.Call) and A.call_attr(a) == "endswith" and a.args] if isinstance(n, ast.If) else []
+            if ew:
+                lit = A.const_str(ew[0].args[0])
                 if lit is not None and lit.startswith("."):
                     sl = [x for x in ast.walk(n) if isinstance(x, ast.Subscript) and isinstance(x.slice, ast.Slice)]
                     strips.append((fn, n, lit, sl))
@@ -390,6 +391,33 @@ def check_path_scheme(ck):
         ok = lit == link and cut == len(link)
         ck.ob(R, "%s::%s" % (fn.qual, A.head(n)), ok, "listing strips exactly the %r suffix" % link if ok else
               "listing strips %r/%s characters but links are written with suffix %r" % (lit, cut, link), A.loc(fn, n))
+        # only FILES are links: a directory whose name happens to end in the link suffix (a function
+        # version such as "1.link") is a key component and must be listed unaltered
+        parents = {}
+        for x in ast.walk(fn.node):
+            for ch in ast.iter_child_nodes(x):
+                parents[ch] = x
+        files_only = False
+        cond_txt = []
+        x = n
+        while x in parents:
+            x = parents[x]
+            if isinstance(x, ast.If):
+                cond_txt.append(A.norm(x.test))
+            if isinstance(x, ast.For) and isinstance(x.iter, ast.Name):
+                # `for filename in filenames` under `for dirpath, dirnames, filenames in os.walk(..)`
+                y = x
+                while y in parents:
+                    y = parents[y]
+                    if isinstance(y, ast.For) and isinstance(y.iter, ast.Call) and A.call_attr(y.iter) == "walk" \
+                            and isinstance(y.target, ast.Tuple) and len(y.target.elts) == 3 and A.norm(y.target.elts[2]) == x.iter.id:
+                        files_only = True
+        cond_txt.append(A.norm(n.test))
+        guarded = any("is_file()" in t or "is_dir()" in t or "isfile(" in t or "isdir(" in t for t in cond_txt)
+        ck.ob(R, "%s::%s::files-only" % (fn.qual, A.head(n)), files_only or guarded,
+              "the %r suffix is stripped from file names only" % link if files_only or guarded else
+              "the %r suffix is stripped from every directory entry, sub-directories included: a function whose version ends in %r "
+              "(its directory is <name>#<version>) is listed under a truncated version that was never memoized" % (link, link), A.loc(fn, n))
     pv = FA(ck, FSDS + "._get_path_versioned")
     vd = FA(ck, FSDS + "._get_versions_directory")
     lits_pv = {s for r in pv.returns() for s in A.strings_in(r.value) if s.startswith(".")}
